@@ -2591,6 +2591,8 @@ class VM:
         if isinstance(getter, JSFunction):
             # Use synchronous execution (like _call_callback)
             return self._call_callback(getter, [], this_val)
+        elif isinstance(getter, JSBoundMethod):
+            return getter(this_val)  # built-in accessor: takes its receiver
         elif callable(getter):
             return getter()
         return UNDEFINED
@@ -2600,6 +2602,8 @@ class VM:
         if isinstance(setter, JSFunction):
             # Use synchronous execution (like _call_callback)
             self._call_callback(setter, [value], this_val)
+        elif isinstance(setter, JSBoundMethod):
+            setter(this_val, value)  # built-in accessor: takes its receiver
         elif callable(setter):
             setter(value)
 
